@@ -138,6 +138,32 @@ def run(model, rep, tier):
                    % (fname, unparse(b['_node'])[:70]), bool(ok and guard and seen_same),
                    '' if ok and guard and seen_same else 'the orbit of a new representative is not recorded as seen (duplicates) or not '
                                                         'output (missing clusters)', engine='owner', qual=fname)
+            # the seen-set lives as long as the list of orbits it guards: re-created inside a loop that keeps appending to the
+            # same list, it forgets the orbits found in earlier iterations and an orbit reachable from two base clusters
+            # (a vacancy TS cluster and the reversed cluster of another base orbit) is listed twice
+            if guard:
+                elist = next((m['_N_e'] for m in pattern.find(blk, '_N_e.append(_N_s)', _N_s=b['_N_s'])), None)
+
+                def _loops(node):
+                    out, p_ = [], getattr(node, '_parent', None)
+                    while p_ is not None and p_ is not fn:
+                        if isinstance(p_, (ast.For, ast.While)):
+                            out.append(id(p_))
+                        p_ = getattr(p_, '_parent', None)
+                    return set(out)
+                sinit = [n for n in walk_local(fn) if isinstance(n, ast.Assign) and len(n.targets) == 1 and unparse(n.targets[0]) == seen[0]]
+                einit = [n for n in walk_local(fn) if isinstance(n, ast.Assign) and len(n.targets) == 1 and unparse(n.targets[0]) == elist] \
+                    if elist else []
+                if not sinit or not einit:
+                    rep.undecided('%s: where %s / %s are created was not located' % (fname, seen[0], elist))
+                else:
+                    eloops = set.union(*[_loops(n) for n in einit])
+                    inner = [n for n in sinit if _loops(n) - eloops and _loops(n) & _loops(b['_node'])]
+                    rep.ob('orbit-closure', nmod, inner[0] if inner else sinit[0],
+                           '%s: seen-set %s is created alongside the list %s it guards' % (fname, seen[0], elist), not inner,
+                           '' if not inner else 'the seen-set is re-created in every pass of a loop that goes on appending to %s: orbits found '
+                           'in earlier passes are forgotten, so an orbit reachable from two base clusters is listed twice' % elist,
+                           engine='owner', qual=fname)
     rep.floor('orbit generation sites', n_sites, 5)
     ts = model.func('cluster', 'makeTSclusters')
     # the reversed cluster's images under every g of crys.G enter the same set: one add per g, or one update with a generator
